@@ -13,6 +13,8 @@ import ChibiVerif.Lemmas.LinkageSym
 namespace ChibiVerif.Linkage
 open ChibiVerif.Spec.Linkage
 
+variable [Rules]
+
 /-! ### generic list facts -/
 
 theorem nodup_dedup {α : Type} [DecidableEq α] : ∀ (l : List α), (dedup l).Nodup
@@ -76,15 +78,15 @@ theorem range_rev_append (k m n : Nat) :
     (List.range' (k + m) n).reverse ++ (List.range' k m).reverse = (List.range' k (m + n)).reverse := by
   rw [← List.reverse_append, List.range'_append_1]
 
-theorem anonIdx_initNews : ∀ (items : List InitItem) (k : Nat), anonIdx (initNews k items) = (List.range' k (initCount items)).reverse
+theorem anonIdx_initNews (cur : Option Name) : ∀ (items : List InitItem) (k : Nat), anonIdx (initNews cur k items) = (List.range' k (initCount items)).reverse
   | [], _ => rfl
-  | .ref _ :: r, k => by simp only [initNews, initCount]; exact anonIdx_initNews r k
+  | .ref _ :: r, k => by simp only [initNews, initCount]; exact anonIdx_initNews cur r k
   | .str n :: r, k => by
-    simp only [initNews, initCount, anonIdx_append, anonIdx_initNews r (k + 1)]
+    simp only [initNews, initCount, anonIdx_append, anonIdx_initNews cur r (k + 1)]
     rw [range_rev_succ]
     rfl
 
-theorem anonIdx_bodyItemNews (k : Nat) (b : BodyItem) : anonIdx (bodyItemNews k b) = (List.range' k (bodyItemCount b)).reverse := by
+theorem anonIdx_bodyItemNews (f : Name) (env : SEnv) (k : Nat) (b : BodyItem) : anonIdx (bodyItemNews f env k b) = (List.range' k (bodyItemCount b)).reverse := by
   cases b with
   | ref r => rfl
   | staticLocal tls ty init =>
@@ -97,20 +99,20 @@ theorem anonIdx_bodyItemNews (k : Nat) (b : BodyItem) : anonIdx (bodyItemNews k 
   | str n => rfl
   | externObj x tls ty => rfl
 
-theorem anonIdx_bodyNews : ∀ (b : List BodyItem) (k : Nat), anonIdx (bodyNews k b) = (List.range' k (bodyCount b)).reverse
-  | [], _ => rfl
-  | i :: rest, k => by
-    simp only [bodyNews, bodyCount, anonIdx_append, anonIdx_bodyNews rest, anonIdx_bodyItemNews]
+theorem anonIdx_bodyNews (f : Name) : ∀ (b : List BodyItem) (env : SEnv) (k : Nat), anonIdx (bodyNews f env k b) = (List.range' k (bodyCount b)).reverse
+  | [], _, _ => rfl
+  | i :: rest, env, k => by
+    simp only [bodyNews, bodyCount, anonIdx_append, anonIdx_bodyNews f rest, anonIdx_bodyItemNews]
     exact range_rev_append k _ _
 
-theorem anonIdx_declNews (k : Nat) (d : Decl) : anonIdx (declNews k d) = (List.range' k (declCount d)).reverse := by
+theorem anonIdx_declNews (k : Nat) (env : SEnv) (d : Decl) : anonIdx (declNews k env d) = (List.range' k (declCount d)).reverse := by
   cases d with
   | func f n s e i body =>
     cases body with
     | none => rfl
     | some b =>
       simp only [declNews, declCount, anonIdx_append, anonIdx_bodyNews]
-      have : anonIdx [strObj (k + 1) (n + 1), strObj k (n + 1)] = (List.range' k 2).reverse := rfl
+      have : anonIdx [strObj (some f) (k + 1) (n + 1), strObj (some f) k (n + 1)] = (List.range' k 2).reverse := rfl
       rw [this]
       exact range_rev_append k 2 _
   | obj x s e t ty init =>
@@ -118,20 +120,20 @@ theorem anonIdx_declNews (k : Nat) (d : Decl) : anonIdx (declNews k d) = (List.r
     | none => rfl
     | some items =>
       simp only [declNews, declCount, anonIdx_append, anonIdx_initNews]
-      have : anonIdx [varObj k x s e t ty (some items)] = [] := rfl
+      have : anonIdx [varObj k x (varStatic env x s e) e t ty (some items)] = [] := rfl
       rw [this, List.append_nil]
 
 def totalCount : List Decl → Nat
   | [] => 0
   | d :: ds => declCount d + totalCount ds
 
-theorem anonIdx_allNews : ∀ (ds : List Decl) (k : Nat), anonIdx (allNews k ds) = (List.range' k (totalCount ds)).reverse
-  | [], _ => rfl
-  | d :: ds, k => by
+theorem anonIdx_allNews : ∀ (ds : List Decl) (k : Nat) (env : SEnv), anonIdx (allNews k env ds) = (List.range' k (totalCount ds)).reverse
+  | [], _, _ => rfl
+  | d :: ds, k, env => by
     simp only [allNews, totalCount, anonIdx_append, anonIdx_allNews ds, anonIdx_declNews]
     exact range_rev_append k _ _
 
-theorem nodup_anonIdx_allNews (ds : List Decl) (k : Nat) : (anonIdx (allNews k ds)).Nodup := by
+theorem nodup_anonIdx_allNews (ds : List Decl) (k : Nat) (env : SEnv) : (anonIdx (allNews k env ds)).Nodup := by
   rw [anonIdx_allNews]
   exact nodup_reverse' List.nodup_range'
 
@@ -163,22 +165,22 @@ theorem count_anon_le_one : ∀ (l : List Obj) (j : Nat), (anonIdx l).Nodup → 
 
 /-! ### at most one non-tentative definition per object name -/
 
-theorem realDef_bodyNews {b : List BodyItem} {k : Nat} {x : Name} : (bodyNews k b).filter (realDefOf (.named x)) = [] := by
+theorem realDef_bodyNews {f : Name} {b : List BodyItem} {env : SEnv} {k : Nat} {x : Name} : (bodyNews f env k b).filter (realDefOf (.named x)) = [] := by
   rw [List.filter_eq_nil_iff]
   intro o ho
-  rcases bodyNews_kind b k o ho with ⟨j, n, rfl⟩ | ⟨y, tls, ty, _, rfl⟩ | ⟨tls, ty, init, j, _, rfl⟩ <;>
+  rcases bodyNews_kind f b env k o ho with ⟨cur, j, n, rfl⟩ | ⟨y, tls, ty, stc, _, rfl⟩ | ⟨tls, ty, init, j, _, rfl⟩ <;>
     simp [realDefOf, strObj, externO, slObj]
 
-theorem realDef_initNews {items : List InitItem} {k : Nat} {x : Name} : (initNews k items).filter (realDefOf (.named x)) = [] := by
+theorem realDef_initNews {cur : Option Name} {items : List InitItem} {k : Nat} {x : Name} : (initNews cur k items).filter (realDefOf (.named x)) = [] := by
   rw [List.filter_eq_nil_iff]
   intro o ho
   obtain ⟨j, n, rfl⟩ := initNews_str ho
   simp [realDefOf, strObj]
 
-theorem realDef_count_allNews (x : Name) : ∀ (ds : List Decl) (k : Nat),
-    ((allNews k ds).filter (realDefOf (.named x))).length = ((objDecls ds x).filter (fun d => d.init.isSome)).length
-  | [], _ => rfl
-  | d :: ds, k => by
+theorem realDef_count_allNews (x : Name) : ∀ (ds : List Decl) (k : Nat) (env : SEnv),
+    ((allNews k env ds).filter (realDefOf (.named x))).length = ((objDecls ds x).filter (fun d => d.init.isSome)).length
+  | [], _, _ => rfl
+  | d :: ds, k, env => by
     simp only [allNews, List.filter_append, List.length_append, realDef_count_allNews x ds]
     cases d with
     | func f n s e i body =>
@@ -192,7 +194,7 @@ theorem realDef_count_allNews (x : Name) : ∀ (ds : List Decl) (k : Nat),
     | obj y s e t ty init =>
       cases init with
       | none =>
-        have h0 : (declNews k (.obj y s e t ty none)).filter (realDefOf (.named x)) = [] := by
+        have h0 : (declNews k env (.obj y s e t ty none)).filter (realDefOf (.named x)) = [] := by
           simp only [declNews, List.filter_eq_nil_iff, List.mem_singleton]
           intro o ho; subst ho
           cases e <;> simp [realDefOf, varObj]
@@ -224,7 +226,7 @@ theorem fnNamed1 : FnNamed gs1 := by
 
 omit u in
 theorem filter_data1 (q : Obj → Bool) (hq : ∀ o, o ∈ gs1 → q o = true → o.isFunction = false) :
-    gs1.filter q = (allNews 0 ds).filter q := by
+    gs1.filter q = (allNews 0 env0 ds).filter q := by
   rw [← p.data1]
   unfold dataOf
   rw [List.filter_filter]
@@ -241,9 +243,9 @@ theorem tentDef1 : ∀ o, o ∈ gs1 → o.isTentative = true → o.isDefinition 
     cases hf : o.isFunction
     · rfl
     · rw [p.fnNotTent1 o ho hf] at ht; cases ht
-  have ha : o ∈ allNews 0 ds := by rw [← p.data1]; exact mem_dataOf.mpr ⟨ho, hf⟩
+  have ha : o ∈ allNews 0 env0 ds := by rw [← p.data1]; exact mem_dataOf.mpr ⟨ho, hf⟩
   cases allNews_kind ds 0 o ha with
-  | @var x s e t ty init k hd =>
+  | @var x s e t ty init k pre post hd =>
     rw [varObj_isTentative] at ht
     rw [varObj_isDefinition]
     cases init <;> simp_all
@@ -251,12 +253,34 @@ theorem tentDef1 : ∀ o, o ∈ gs1 → o.isTentative = true → o.isDefinition 
   | sl => cases ht
   | str => cases ht
 
+omit u p in
+/-- the hypotheses of C15_tentative survive the pass in front of `scan_globals` (it changes types only) -/
+theorem nameOK_preScan {l : List Obj} {s : Sym} (h : NameOK l s) : NameOK (preScan l) s := by
+  refine ⟨fun o ho hs => ?_, ?_, fun o ho ht => ?_⟩
+  · obtain ⟨a, ha, rfl⟩ := mem_preScan.mp ho
+    obtain ⟨T, hT⟩ := preOne_same l a
+    rw [hT] at hs ⊢
+    exact h.noFn a ha hs
+  · rw [(preScan_tyRel l).filter_length (tyBlind_realDefOf s)]
+    exact h.oneReal
+  · obtain ⟨a, ha, rfl⟩ := mem_preScan.mp ho
+    obtain ⟨T, hT⟩ := preOne_same l a
+    rw [hT] at ht ⊢
+    exact h.tentDef a ha ht
+
 /-- at most one definition of any label among the data `emit_data` prints -/
 theorem data_count_le_one (fc : Bool) (s : Sym) : ((emitData fc gs).filter (fun e => e.sym == s)).length ≤ 1 := by
-  rw [p.hgs, emitData_count, (scanGlobals_tyRel gs1).filter_length (tyBlind_dataDefOf s)]
+  have hle : ((emitData fc gs).filter (fun e => e.sym == s)).length ≤
+      ((gs.filterMap (emitDataVar fc)).filter (fun e => e.sym == s)).length := by
+    unfold emitData
+    exact ((List.filter_sublist.filterMap _).filter _).length_le
+  refine Nat.le_trans hle ?_
+  rw [emitDataVar_count, p.hgs]
+  unfold scanGlobals
+  rw [(scanCore_tyRel (preScan gs1)).filter_length (tyBlind_dataDefOf s)]
   cases s with
   | anon j =>
-    refine scanPure_count_le_one ⟨fun o ho hs => ?_, ?_, tentDef1 p⟩
+    refine scanPure_count_le_one (nameOK_preScan ⟨fun o ho hs => ?_, ?_, tentDef1 p⟩)
     · cases hf : o.isFunction
       · rfl
       · obtain ⟨f, hsf⟩ := fnNamed1 p o ho hf
@@ -270,21 +294,23 @@ theorem data_count_le_one (fc : Bool) (s : Sym) : ((emitData fc gs).filter (fun 
         · obtain ⟨f, hsf⟩ := fnNamed1 p o ho hf
           simp only [beq_iff_eq] at hs
           rw [hsf] at hs; cases hs)] at hle
-      exact Nat.le_trans hle (count_anon_le_one _ j (nodup_anonIdx_allNews ds 0))
+      exact Nat.le_trans hle (count_anon_le_one _ j (nodup_anonIdx_allNews ds 0 env0))
   | named x =>
     by_cases hfn : x ∈ fnNames ds
     · -- a function name: no datum carries it
-      have : (scanPure gs1 gs1).filter (dataDefOf (.named x)) = [] := by
+      have : (scanPure (preScan gs1) (preScan gs1)).filter (dataDefOf (.named x)) = [] := by
         rw [List.filter_eq_nil_iff]
         intro o ho hd
         simp only [dataDefOf, Bool.and_eq_true, Bool.not_eq_true', beq_iff_eq] at hd
-        have ho1 := scanPure_sub gs1 gs1 o ho
-        have ha : o ∈ allNews 0 ds := by rw [← p.data1]; exact mem_dataOf.mpr ⟨ho1, hd.1.1⟩
-        rcases (allNews_kind ds 0 o ha).named hd.2 with ⟨s, e, t, ty, init, k, hdd, _⟩ | ⟨f, n, s, e, i, b, tls, ty, _, _, rfl⟩
-        · exact (u.disjoint hfn).1 (mem_objNames_of_mem hdd)
+        obtain ⟨a, ha1, rfl⟩ := mem_preScan.mp (scanPure_sub _ _ o ho)
+        obtain ⟨T, hT⟩ := preOne_same gs1 a
+        rw [hT] at hd
+        have ha : a ∈ allNews 0 env0 ds := by rw [← p.data1]; exact mem_dataOf.mpr ⟨ha1, hd.1.1⟩
+        rcases (allNews_kind ds 0 a ha).named hd.2 with ⟨s, e, t, ty, init, k, pre, post, hdd, _⟩ | ⟨f, n, s, e, i, b, tls, ty, stc, _, _, rfl⟩
+        · exact (u.disjoint hfn).1 (mem_objNames_of_mem (mem_of_split hdd))
         · have := hd.1.2; cases this
       rw [this]; exact Nat.zero_le _
-    · refine scanPure_count_le_one ⟨fun o ho hs => ?_, ?_, tentDef1 p⟩
+    · refine scanPure_count_le_one (nameOK_preScan ⟨fun o ho hs => ?_, ?_, tentDef1 p⟩)
       · cases hf : o.isFunction
         · rfl
         · exact absurd (firstFlags_isSome.mp (p.fn_declared ho hf hs)) hfn
@@ -296,7 +322,7 @@ theorem data_count_le_one (fc : Bool) (s : Sym) : ((emitData fc gs).filter (fun 
         by_cases hx : x ∈ objNames ds
         · have := (u.objs x hx).valid
           simp only [objValid, Bool.and_eq_true, decide_eq_true_eq] at this
-          exact this.1.1.1.1
+          exact this.1.1.1.1.1
         · rw [mem_objNames, Classical.not_not] at hx
           rw [hx]; exact Nat.zero_le _
 
@@ -329,7 +355,9 @@ theorem text_syms_sublist : ∀ (l : List Obj), FnNamed l →
 
 omit u in
 theorem text_nodup : ((emitText gs).map (·.sym)).Nodup := by
-  rw [p.hgs, emitText_scanGlobals p.fnNotTent1]
+  rw [p.hgs]
+  unfold scanGlobals
+  rw [emitText_scanCore p.fnNotTent2, emitText_preScan]
   refine (text_syms_sublist gs1 (fnNamed1 p)).nodup ?_
   have := p.nodup1
   unfold List.Nodup at this ⊢
@@ -361,7 +389,8 @@ theorem objectSymbols_nodup (fc : Bool) : ((objectSymbols fc gs).map (·.sym)).N
     unfold emitData at he1
     unfold emitText at he2
     rw [List.mem_filterMap] at he1 he2
-    obtain ⟨o1, ho1, hoe1⟩ := he1
+    obtain ⟨o1, ho1', hoe1⟩ := he1
+    have ho1 := (List.mem_filter.mp ho1').1
     obtain ⟨o2, ho2, hoe2⟩ := he2
     have hd1 := emitDataVar_isSome fc o1
     rw [hoe1] at hd1
@@ -438,12 +467,7 @@ theorem nodup_objNames (ds : List Decl) : (objNames ds).Nodup := nodup_reverse' 
 
 /-- **no symbol appears twice in `Spec.symbols`** (for a valid unit) -/
 theorem symbols_nodup (fc : Bool) {ds : List Decl} (hv : valid ds = true) : ((symbols fc ds).map (·.sym)).Nodup := by
-  have hv' := hv
-  simp only [valid, Bool.and_eq_true, List.all_eq_true] at hv'
-  have hdis : ∀ f, f ∈ fnNames ds → f ∉ objNames ds ∧ f ∉ blockExternNames ds := by
-    intro f hf
-    have := hv'.1.1.2 f hf
-    simpa using this
+  have hdis : ∀ f, f ∈ fnNames ds → f ∉ objNames ds ∧ f ∉ blockExternNames ds := (valid_parts hv).2.2.1
   unfold symbols
   rw [List.map_append, List.map_append, List.nodup_append, List.nodup_append]
   have s1 := sublist_filterMap_map (g := fnSymbol ds) (h := fun e => e.sym) (k := Sym.named) (fun a e h => fnSymbol_sym h) (fnNames ds)
@@ -488,20 +512,18 @@ theorem symbols_nodup (fc : Bool) {ds : List Decl} (hv : valid ds = true) : ((sy
       subst hyx'
       exact hx.2.1 hy
 
-/-- **C15_symbols, outside the known-finding regions, with multiplicities**: the symbol table of the output is a
-    permutation of `Spec.symbols` -/
-theorem symbols_perm_lemma (fcommon : Bool) {ds : List Decl} (hv : valid ds = true)
-    (hf : flagsFrozenDefRegion ds = false) (hd : deadStaticLocalVisibleRegion ds = false) (hc : compositeSizeRegion ds = false)
-    (he : externInitAfterStaticRegion ds = false) (hs : symbolsSide ds = true) :
+/-- **C15_symbols, outside the regions of the known findings the code still has, with multiplicities**: the symbol
+    table of the output is a permutation of `Spec.symbols` -/
+theorem symbols_perm_lemma (fcommon : Bool) {ds : List Decl} (hsc : symbolsScope ds = true) :
     ∃ gs, parseUnit ds = .ok gs ∧ (objectSymbols fcommon gs).Perm (symbols fcommon ds) := by
-  have u := unitOK_of hv hf hd hc he hs
-  obtain ⟨st, hst⟩ := parse_ok hv u.ordered
+  have u := unitOK_of hsc
+  obtain ⟨st, hst⟩ := parse_ok u.valid
   obtain ⟨gs1, p⟩ := parsed_of_declAll hst
   refine ⟨scanGlobals gs1, p.parseUnit, ?_⟩
   have n1 : (objectSymbols fcommon (scanGlobals gs1)).Nodup :=
     List.Pairwise.of_map (fun e => e.sym) (fun a b hab e => hab (by rw [e])) (objectSymbols_nodup u p fcommon)
   have n2 : (symbols fcommon ds).Nodup :=
-    List.Pairwise.of_map (fun e => e.sym) (fun a b hab e => hab (by rw [e])) (symbols_nodup fcommon hv)
+    List.Pairwise.of_map (fun e => e.sym) (fun a b hab e => hab (by rw [e])) (symbols_nodup fcommon u.valid)
   exact (List.perm_ext_iff_of_nodup n1 n2).mpr (fun e => symbols_iff u p fcommon e)
 
 end ChibiVerif.Linkage
